@@ -39,7 +39,7 @@ def run(chk):
                 "{all present, all missing, first/last missing, alternating, random runs}, labels incl. empty / 255 "
                 "chars / every cp1252 char, integer extremes, float specials (+-0, denormals, FLT_MAX, +-inf) and "
                 "random bits; every block is validated by the extracted wfb; observation = extracted fields of "
-                "_build(_write(b)) and bytes of a second _write, compared with the model's dec(enc v); non-trivial = "
+                "_build(_write(b)) and bytes of a second _write, compared with the model's dec(enc v); also: blocks built, used (sized / encoded / compared / printed), then edited IN PLACE to another content of the same shape and used again; non-trivial = "
                 ">=1 item and (a gap or >=2 items)")
     corpus = codec.load_corpus("C01")
     chk.count("corpus", len(corpus))
